@@ -496,6 +496,19 @@ func mergeStats(a, b *PathStats) {
 	for k := range b.Assumptions {
 		a.Assumptions[k] = true
 	}
+	for fn, bm := range b.Blocks {
+		am := a.Blocks[fn]
+		if am == nil {
+			am = map[int]bool{}
+			if a.Blocks == nil {
+				a.Blocks = map[*ssa.Function]map[int]bool{}
+			}
+			a.Blocks[fn] = am
+		}
+		for i := range bm {
+			am[i] = true
+		}
+	}
 	for _, s := range b.Samples {
 		if len(a.Samples) < 5 {
 			a.Samples = append(a.Samples, s)
@@ -539,6 +552,7 @@ func (e *Engine) runPathPinned(h *HarnessCfg, fn *ssa.Function, prefix []int, so
 		globals: map[*ssa.Global]*Object{}, initRun: map[*ssa.Package]bool{}}
 	p.st.Funcs = map[string]int{}
 	p.st.Reached = map[string]bool{}
+	p.st.Blocks = map[*ssa.Function]map[int]bool{}
 	p.lockEvents = h.LockEvents
 	endKind = "done"
 	defer func() {
